@@ -35,6 +35,7 @@ pub fn replay(path: &str) -> i32 {
             opts.seed = j["seed"].as_u64().unwrap_or(1);
             opts.repeat_last = j["repeat_last"].as_bool().unwrap_or(false);
             opts.poke = j["poke"].as_bool().unwrap_or(false);
+            opts.stride = j["stride"].as_u64().unwrap_or(0) as usize;
             opts.extra_known = sigs_of(&j["extra_known"]);
             let ov = j["driver_overrides_write_input"].as_bool().unwrap_or(true);
             let a = obs_items_brief(&run_dynamic(text, &sigs, ov, &script, &opts));
